@@ -8,6 +8,7 @@ import (
 
 	plush "github.com/gobuffalo/plush/v5"
 
+	"verifharness/gen"
 	"verifharness/vrt"
 )
 
@@ -251,4 +252,88 @@ func EndedByFault() {
 	vrt.Assert(err == nil, "the tolerated fault does not fail the render")
 	vrt.Assert(got == pre+"["+itoa(A)+"]U"+itoa(C), "parameters and lets of the ended function are gone and the outer variable is unchanged")
 	vrt.Cover("done")
+}
+
+// ---- scopes enumerated from a grammar, checked against the reference
+// interpreter of package gen: a loop (or a function) whose variables and lets
+// may be named like outer names, with an observer after the construct
+func init() {
+	vrt.Register("C09_generated_loop_scopes", GeneratedLoopScopes)
+	vrt.Register("C09_generated_function_scopes", GeneratedFunctionScopes)
+}
+
+func observers(g *gen.G) []*gen.Stmt {
+	switch vrt.Choice(5) {
+	case 0:
+		return []*gen.Stmt{gen.Out(gen.Var("x"))}
+	case 1:
+		return []*gen.Stmt{gen.Out(gen.Var("v"))}
+	case 2:
+		return []*gen.Stmt{gen.Out(gen.Var("x")), gen.Out(gen.Var("v"))}
+	case 3:
+		return []*gen.Stmt{gen.Out(gen.Var("e"))} // the loop variable / parameter is gone
+	}
+	return []*gen.Stmt{gen.IfElse(true, gen.Var("e"), []*gen.Stmt{gen.Text("T")}, []*gen.Stmt{gen.Text("F")}), gen.Out(gen.Var("x"))}
+}
+
+func outerLet() []*gen.Stmt {
+	switch vrt.Choice(3) {
+	case 1:
+		return []*gen.Stmt{gen.Let("v", gen.Var("x"))}
+	case 2:
+		return []*gen.Stmt{gen.Let("v", gen.Lit(3))}
+	}
+	return nil
+}
+
+func GeneratedLoopScopes() {
+	p := gen.Profile{Lets: true, Shadow: true, Ctl: true, Ifs: true, Conds: 2, Vals: 2, Pres: 2, Posts: 3, Leafs: 2, Iters: 2}
+	if vrt.Tier() > 0 {
+		p = gen.Profile{Lets: true, Shadow: true, Assigns: true, Ctl: true, Ifs: true, Loops: true, Conds: 3, Vals: 3, Iters: 4}
+	}
+	g := &gen.G{P: p}
+	var prog []*gen.Stmt
+	prog = append(prog, outerLet()...)
+	prog = append(prog, gen.Text("<"), g.For(gen.Cx{Inner: "x"}, vrt.Tier()), gen.Text(">"))
+	prog = append(prog, observers(g)...)
+	gen.Check(prog, gen.NewData(2), "names bound inside a loop")
+}
+
+func GeneratedFunctionScopes() {
+	p := gen.Profile{Lets: true, Shadow: true, Ctl: true, Conds: 2, Vals: 3, Pres: 2}
+	if vrt.Tier() > 0 {
+		p.Assigns, p.Conds, p.Vals, p.Pres = true, 3, 0, 0
+	}
+	g := &gen.G{P: p}
+	param := "p"
+	if vrt.Choice(2) == 1 {
+		param = "x" // a parameter named like an outer variable
+	}
+	var prog []*gen.Stmt
+	prog = append(prog, outerLet()...)
+	prog = append(prog, gen.Fn("f", []string{param}, g.FnBody(param, 0)))
+	arg := gen.Var("x")
+	if vrt.Choice(2) == 1 {
+		arg = gen.Add(gen.Var("x"), gen.Lit(1))
+	}
+	switch vrt.Choice(3) {
+	case 0:
+		prog = append(prog, gen.Out(gen.Call("f", arg)))
+	case 1:
+		// called from inside a loop: the callee must not see or disturb the loop's names
+		prog = append(prog, gen.For("", "e", gen.Var("xs"), []*gen.Stmt{gen.Out(gen.Call("f", gen.Var("e"))), gen.Out(gen.Var("e"))}))
+	default:
+		prog = append(prog, gen.Out(gen.Call("f", arg)), gen.Out(gen.Call("f", gen.Lit(2))))
+	}
+	switch vrt.Choice(4) {
+	case 0:
+		prog = append(prog, gen.Out(gen.Var("x")))
+	case 1:
+		prog = append(prog, gen.Out(gen.Var("v")))
+	case 2:
+		prog = append(prog, gen.Out(gen.Var("p"))) // the parameter is gone
+	default:
+		prog = append(prog, gen.Out(gen.Var("x")), gen.Out(gen.Var("v")))
+	}
+	gen.Check(prog, gen.NewData(2), "names bound inside a function")
 }
